@@ -195,9 +195,44 @@ func c16Emitted(m *protogen.Method) (int, *callTypeInfo) {
 }
 
 func VerifC16Lattice() {
-	s := &vShape{rpc: vBool("rpc"), unicast: vBool("unicast"), multicast: vBool("multicast"), quorumcall: vBool("quorumcall"),
+	c16CheckShape(c16SymbolicShape(), false)
+}
+
+func c16SymbolicShape() *vShape {
+	return &vShape{rpc: vBool("rpc"), unicast: vBool("unicast"), multicast: vBool("multicast"), quorumcall: vBool("quorumcall"),
 		correctable: vBool("correctable"), async: vBool("async"), perNode: vBool("per_node_arg"), custom: vBool("custom_return_type"),
 		clientStream: vBool("client_stream"), serverStream: vBool("server_stream")}
+}
+
+// VerifC16TwoFiles: one plugin run generates several files, and the generator's answers for a
+// method must depend on that method alone ("byte-identical output for the same input"): a
+// method of an EARLIER file - same service and method names, another package, one of the
+// documented shapes - is put through every helper the templates use, then a method of
+// arbitrary (symbolic) shape is classified exactly as VerifC16Lattice demands of a fresh run.
+// Anything the generator remembers between files (caches keyed by names, package-level
+// state) shows up as a classification that differs from the one of a fresh run.
+func VerifC16TwoFiles() {
+	first := []vShape{
+		{quorumcall: true}, {quorumcall: true, async: true}, {correctable: true}, {correctable: true, serverStream: true},
+		{multicast: true}, {unicast: true}, {rpc: true}, {quorumcall: true, perNode: true, custom: true},
+	}
+	s1 := first[vChoice("earlier-file", len(first))]
+	m1 := c16Method(&s1)
+	m1.Output.GoIdent.GoImportPath = "pkg1"
+	m1.Input.GoIdent.GoImportPath = "pkg1"
+	vAssert(validateOptions(m1) == nil, "C16.documented-combination-rejected")
+	n1, sel1 := c16Emitted(m1)
+	vAssert(n1 == 1, "C16.not-exactly-one-client-stub")
+	if sel1.template == quorumCall || sel1.template == asyncCall || sel1.template == correctableCall {
+		vAssert(callType(m1) == sel1, "C16.calltype-depends-on-map-order")
+	}
+	customOut(nil, m1)
+	vReach("second-file")
+	c16CheckShape(c16SymbolicShape(), true)
+}
+
+// light: only the classification, the number of stubs and callType (the second-file harness)
+func c16CheckShape(s *vShape, light bool) {
 	m := c16Method(s)
 	ncall := 0
 	for _, b := range []bool{s.unicast, s.multicast, s.quorumcall, s.correctable} {
@@ -235,6 +270,9 @@ func VerifC16Lattice() {
 		panicked := vExpectPanic(func() { ct2 = callType(m) })
 		vAssert(!panicked, "C16.calltype-panics")
 		vAssert(ct2 == sel, "C16.calltype-depends-on-map-order")
+	}
+	if light {
+		return
 	}
 	vAssert((len(qspecMethods([]*protogen.Method{m})) == 1) == hasQF, "C16.qspec-disagrees-with-template")
 	svc := []*protogen.Service{{Methods: []*protogen.Method{m}}}
@@ -339,3 +377,4 @@ func VerifC16ExplicitFalse() {
 func VerifC16ExplicitFalseTwin() { VerifC16ExplicitFalse(); vFail("C16.twin") }
 func VerifC16LatticeTwin()       { VerifC16Lattice(); vFail("C16.twin") }
 func VerifC16ReservedTwin()      { VerifC16Reserved(); vFail("C16.twin") }
+func VerifC16TwoFilesTwin()      { VerifC16TwoFiles(); vFail("C16.twin") }
